@@ -58,7 +58,7 @@ EXPECTED_PROBES = ["probe.step_completed", "probe.breakpoint_hit", "probe.pause_
                    "probe.step_hit_end_of_run", "probe.non_one_shot_refired", "probe.peek_or_find",
                    "probe.reset_with_source", "probe.metric_breakpoint_on_zero", "probe.breakpoint_added_from_hook",
                    "probe.reset_after_fast_loop_run", "probe.paused_at_final_delivery",
-                   "probe.reset_from_a_midrun_pause"]
+                   "probe.reset_from_a_midrun_pause", "probe.reset_with_probe_class"]
 SHRINK_SKIP = ("n_entities", "n_kinds")
 
 
@@ -80,8 +80,14 @@ def gen(rng, tier):
             prog["end"] = max([i["t"] for i in prog["initial"]] or [0]) + 4_000_000_000_000
     if stateless and rng.random() < 0.5:
         # a load source (and sometimes a daemon probe): reset() must re-prime them
-        prog["source"] = {"rate": rng.choice([2.0, 4.0, 7.0]), "dur": rng.choice([1.0, 3.0, 5.0]),
-                          "probe": rng.random() < 0.4}
+        prog["source"] = {"rate": rng.choice([2.0, 4.0, 7.0, 10.0]), "dur": rng.choice([1.0, 3.0, 5.0]),
+                          "probe": rng.choice([False, False, False, True, "probe_class", "probe_class"])}
+        # pre-run events due exactly at the first tick of the source (1/rate) and of the Probe (0.2 s): same-instant
+        # ties between what reset() re-primes and what it replays
+        for _ in range(rng.choice([0, 1, 2])):
+            prog["initial"].append({"t": rng.choice([int(1e9 / prog["source"]["rate"]), 200_000_000]),
+                                    "to": rng.randrange(prog["n_entities"]), "k": rng.randrange(prog["n_kinds"]),
+                                    "daemon": False, "cancel": False})
         # a Source keeps ticking for ever, so these programs always get an explicit end_time
         if prog["end"] is None:
             prog["end"] = rng.choice([2_000_000_000, 5_000_000_000, 8_000_000_000])
@@ -170,7 +176,14 @@ def _build(sc, *, control=False, trace=False):
         from happysimulator import Source
         sources.append(Source.constant(rate=src["rate"], target=pr.entities[0], event_type="k0", name="load",
                                        stop_after=src["dur"]))
-        if src.get("probe"):
+        if src.get("probe") == "probe_class":
+            # the library's Probe (a daemon Source sampling an attribute into a Data sink every 0.2 s)
+            from happysimulator.instrumentation.data import Data
+            from happysimulator.instrumentation.probe import Probe
+            pr.probe_data = Data()
+            pr.entities[-1].chain_metric = 0
+            probes.append(Probe(target=pr.entities[-1], metric="chain_metric", data=pr.probe_data, interval=0.2))
+        elif src.get("probe"):
             probes.append(Source.constant(rate=3, target=pr.entities[-1], event_type="k0", name="probe"))
     sim = Simulation(entities=pr.entities, sources=sources or None, probes=probes or None,
                      end_time=Instant(end) if end is not None else None, trace_recorder=rec)
@@ -521,6 +534,7 @@ def run(sc):
             r = _reset_check(sc)
             counters["probe.reset_rerun"] = 1
             counters["probe.reset_with_source"] = int(bool(sc.get("source")))
+            counters["probe.reset_with_probe_class"] = int((sc.get("source") or {}).get("probe") == "probe_class")
             counters["probe.reset_from_a_midrun_pause"] = int(bool(sc.pop("_midrun_paused", False)))
             counters["probe.reset_after_fast_loop_run"] = int(bool(sc.get("reset_first_fast")) and sc.get("end") is not None)
             if r:
@@ -574,6 +588,8 @@ def _reset_check(sc):
     sim.run()
     first = list(tl)
     first_t = list(pr.tlog)
+    pdata = getattr(pr, "probe_data", None)
+    probe_first = list(pdata.values) if pdata is not None else []
     del tl[:]
     pr.log.clear()
     del pr.tlog[:]
@@ -600,6 +616,7 @@ def _reset_check(sc):
         pr.log.clear()
         del pr.tlog[:]
         sim.control.reset()
+    probe_mark = len(pdata.values) if pdata is not None else 0
     sim.control.pause()
     sim.run()
     if sim.control.is_paused:
@@ -613,6 +630,11 @@ def _reset_check(sc):
     if fast_first or first == second:
         # entity-side record (clock, type, entity, generator step): independent of any control hook
         first, second = first_t, list(pr.tlog)
+    if pdata is not None:
+        probe_second = list(pdata.values)[probe_mark:]
+        if [t for t, _ in probe_first] != [t for t, _ in probe_second]:
+            return ("reset/probe-samples-differ", f"the Probe took {len(probe_first)} samples in the original run and "
+                                                  f"{len(probe_second)} after reset() (or at other instants)")
     for uid, step, clk, evt in pr.log:
         if step < 0 and clk != evt:
             return ("reset/clock-ne-event-time", f"after reset() an event stamped {evt}ns was delivered while the clock read {clk}ns")
